@@ -3,6 +3,7 @@ CONSTANTS
   MaxLen = 3
   ExtraLen = 4
   NCfg = 6
+  LocalInLoopCheck = TRUE
   Gen = TRUE
 INVARIANTS StoredOnlyIf StoredConforms SentNoLoop PipelineExact
 CHECK_DEADLOCK FALSE
